@@ -14,11 +14,20 @@ Oracle (only what the property states)
   * the harness process's stdout stays EMPTY (stdout is a regular file, fully buffered; the pending byte count is sampled
     after every case and the file size must equal the sum attributed to cases);
   * no signal (sigsetjmp/siglongjmp around every call: SIGFPE/SIGSEGV/SIGABRT/... is that case's outcome), no exit()
-    (op_semantics.c/bn.c are compiled with -Dexit=c04_exit), no run-away loop (periodic CPU-time tick: two ticks inside one call end it);
+    (op_semantics.c/bn.c are compiled with -Dexit=c04_exit), no run-away loop (periodic CPU-time tick: two ticks inside
+    one call make a suspect, which is run again and must survive CONFIRM_TICKS ticks to be reported);
   * an accepted expression whose C does not compile/link is a violation (gcc's diagnostics name the function);
   * a translation that raises NotImplementedError is "not accepted" (counted); any other exception is counted as
     `translator_raises` and reported as a finding candidate, but is not a violation (the property only constrains
     accepted expressions).
+
+Attribution (the runtime is built like the extensions, with require() compiled out, so some defects are undefined
+behaviour that damages the caller's memory): the cases run in child processes of the driver; a memory fault inside a
+call ends the child and a fresh one resumes with the next case; a function during which the child dies is run again
+from its first case in a fresh child unless it started in one; and every function with a fault or a death is judged
+only on a second harness in which each function starts in a fresh process and results are written line by line.
+Signatures: operator | width class | operand class : outcome, outcome in {wrong (value differs, or memory fault / abort /
+death of the process), SIGFPE, timeout, exit, compile-error:<normalised gcc message>} or `stdout`.
 
 Space: see RULE / bounds.  Memory operands (MEM_LOOKUP_*) need a live jitcpu and are left out (C20/C24/C49).
 """
@@ -52,7 +61,7 @@ LEVEL_TEXT = ("Bounded-exhaustive: the complete lattice of accepted operators x 
               "result is compared with an independent evaluator; stdout, signals, exit() and compile failures are observed "
               "per case.  The C helpers are per-type instantiations (8/16/32/64) or size-generic loops, so the native widths "
               "plus the limb-aligned and unaligned big-number widths exercise every instantiation.")
-LEVEL_NOTE = ("Trusted: mc/refsem.py, gcc, the 60-line C driver emitted by this module.  Not covered: memory operands "
+LEVEL_NOTE = ("Trusted: mc/refsem.py, gcc, the C driver emitted by this module (DRIVER_HEAD/DRIVER_MAIN).  Not covered: memory operands "
               "(MEM_LOOKUP_* need a live jitcpu; C20/C24/C49), operators without a reference meaning (fpu_*, segm, x86_cpuid, "
               "access_*/load_*, '!'), depth > 2, values outside the boundary lattice for widths > 4, the per-C-type operators "
               "(shifts, div/mod, rotations outside 9/17/33) at non power-of-two widths (recorded under "
@@ -80,11 +89,11 @@ NSHARDS_QUICK = 16
 NSHARDS_THOROUGH = 32
 MAX_PER_SIG = 2
 TICK_MS = 10               # period of the CPU-time tick; two ticks inside one evaluation make a *suspected* run-away loop
-CONFIRM_TICKS = 30         # a suspected case is run again and must survive that many ticks (0.3 s of CPU; the slowest
+CONFIRM_TICKS = 20         # a suspected case is run again and must survive that many ticks (0.2 s of CPU; the slowest
                            # helper, bignum_smod, needs < 0.1 ms) to be reported as a time-out
 MAX_CONFIRMED = 1          # confirmed time-outs per function; later suspected ones are not confirmed and not judged (counted)
 MAX_FAULTS = 4              # memory faults per function (each costs a fresh process); the remaining cases are then not run (counted)
-MAX_TIMEOUTS = 64            # after that many in one function its remaining cases are not run (counted)
+MAX_TIMEOUTS = 8            # after that many in one function its remaining cases are not run (counted)
 
 NARY = ["+", "*", "&", "|", "^"]
 SHIFTS = ["<<", ">>", "a>>"]
@@ -547,6 +556,7 @@ DRIVER_MAIN = r"""
 /* shared with the supervising parent */
 struct c04_shared { size_t func; size_t first; int idx; int faults; };
 static volatile struct c04_shared *c04_sh;
+static int c04_iso;     /* argv[2] == "iso": every function starts in a fresh child */
 
 static void c04_run(const struct c04_desc *d, int start)
 {
@@ -623,6 +633,10 @@ int main(int argc, char **argv)
 
 	prctl(PR_SET_PDEATHSIG, SIGKILL);
 	if (argc < 2 || !(c04_res = fopen(argv[1], "a"))) return 98;
+	c04_iso = argc > 2 && !strcmp(argv[2], "iso");
+	/* isolated mode: one write per result line, so that an abrupt death loses nothing and the first missing case is
+	   the one that killed the process */
+	if (c04_iso) setvbuf(c04_res, NULL, _IOLBF, 0);
 	c04_sh = mmap(NULL, sizeof(*c04_sh), PROT_READ | PROT_WRITE, MAP_SHARED | MAP_ANONYMOUS, -1, 0);
 	if (c04_sh == MAP_FAILED) return 95;
 	memset(&sa, 0, sizeof(sa));
@@ -658,6 +672,7 @@ int main(int argc, char **argv)
 			setitimer(ITIMER_VIRTUAL, &tv, NULL);
 			for (j = c04_sh->func; j < n; j++) {
 				if (j != c04_sh->func) { c04_sh->func = j; c04_sh->idx = 0; c04_sh->faults = 0; }
+				if (c04_iso && j != c04_sh->first) { fflush(c04_res); fflush(stdout); _exit(94); }
 				fprintf(c04_res, "F %d\n", c04_table[j].id);
 				c04_run(&c04_table[j], c04_sh->idx);
 				fflush(c04_res);     /* a later abrupt death must not lose this function's results */
@@ -669,7 +684,7 @@ int main(int argc, char **argv)
 		}
 		while (waitpid(pid, &st, 0) < 0) ;
 		if (WIFEXITED(st) && WEXITSTATUS(st) == 0) break;
-		if (WIFEXITED(st) && WEXITSTATUS(st) == 96) continue;
+		if (WIFEXITED(st) && (WEXITSTATUS(st) == 96 || WEXITSTATUS(st) == 94)) continue;
 		if (c04_sh->func >= n) break;
 		if (c04_sh->func != c04_sh->first) {
 			fprintf(c04_res, "\nR %d\n", c04_table[c04_sh->func].id);
@@ -856,12 +871,12 @@ def compile_items(shadow, rt_objs, items, workdir, name):
     raise RuntimeError("compile loop did not converge")
 
 
-def run_exe(exe, workdir):
+def run_exe(exe, workdir, iso=False):
     """Run one harness; returns ({k: {idx: (kind, value, stdout_bytes)}}, stdout size, completed, return code)"""
     res = exe + ".res"
     so = exe + ".stdout"
     with open(so, "wb") as fo:
-        p = subprocess.run([exe, res], stdin=subprocess.DEVNULL, stdout=fo, stderr=subprocess.DEVNULL, timeout=3600)
+        p = subprocess.run([exe, res] + (["iso"] if iso else []), stdin=subprocess.DEVNULL, stdout=fo, stderr=subprocess.DEVNULL, timeout=3600)
     out = {}
     cur = None
     done = False
@@ -972,7 +987,8 @@ def evaluate(funcs, shadow, rt_objs, workdir, name):
     Returns dict(violations=[(record, inner_key)], counters...)."""
     import miasm.expression.expression as E
     stats = {"functions": 0, "evaluations": 0, "nontrivial": 0, "undefined_skipped": 0, "not_accepted": {}, "raises": {},
-             "per_op": {}, "compile_rejected": 0, "not_run_after_faults_or_timeouts": 0, "not_run_after_crash": 0, "isolated_reruns": 0, "suspected_timeouts_not_confirmed": 0, "signals": 0, "exits": 0, "stdout_cases": 0, "outcomes": set(),
+             "per_op": {}, "compile_rejected": 0, "not_run_after_faults_or_timeouts": 0, "not_run_after_crash": 0, "isolated_reruns": 0, "suspected_timeouts_not_confirmed": 0, "functions_rerun_isolated": 0,
+             "faults_not_reproduced_in_isolation": 0, "signals": 0, "exits": 0, "stdout_cases": 0, "outcomes": set(),
              "probe": {}, "faulty": [], "samples": []}
     vio = []
     items = []
@@ -1045,6 +1061,28 @@ def evaluate(funcs, shadow, rt_objs, workdir, name):
             # the driver died or wrote to stdout outside a case: harness-level failure, never silent
             raise RuntimeError("harness %s: rc=%s completed=%s stdout=%d bytes, %d attributed to cases" % (exe, rc, ok, so_size, flagged))
 
+    # Memory faults and deaths are judged only on a second, isolated run: every suspected function is compiled into a file
+    # of its own and each starts in a fresh process, so that damage left behind by a predecessor (or a transient death
+    # of the evaluating process) is never charged to an innocent function.
+    def suspect(res):
+        return any(c[0] in ("died", "corrupt") or (c[0] == "sig" and c[1] not in OUTCOME_OF_SIGNAL) for c in res.values())
+    sus = [it for it in kept if suspect(results.get(it[0], {}))]
+    if sus:
+        exes2, kept2, rejected2 = compile_items(shadow, rt_objs, sus, workdir, name + "_iso")
+        if rejected2 or len(kept2) != len(sus):
+            raise RuntimeError("isolated re-run: functions that compiled before do not compile now")
+        for exe in exes2:
+            out, so_size, ok, rc = run_exe(exe, workdir, iso=True)
+            nrerun, discarded = out.pop(None)
+            flagged = sum(c[2] for r in out.values() for c in r.values())
+            if so_size != flagged + discarded or not ok:
+                raise RuntimeError("isolated harness %s: rc=%s completed=%s stdout=%d bytes, %d attributed to cases" % (
+                    exe, rc, ok, so_size, flagged))
+            for k2, r2 in out.items():
+                if suspect(results[k2]) and not suspect(r2):
+                    stats["faults_not_reproduced_in_isolation"] += 1
+                results[k2] = r2
+        stats["functions_rerun_isolated"] += len(sus)
     t3 = time.time()
     c3 = cpu()
     stats["seconds"] = {"translate+reference": t1 - t0, "compile": t2 - t1, "run": t3 - t2,
@@ -1134,10 +1172,6 @@ def _worker(shard):
     workdir = tempfile.mkdtemp(prefix="c04_")
     try:
         vio, stats = evaluate(funcs, shadow, rt_objs, workdir, name)
-    except Exception:
-        if os.environ.get("C04_KEEP"):
-            shutil.copytree(workdir, os.path.join(os.environ["C04_KEEP"], name))
-        raise
     finally:
         shutil.rmtree(workdir, ignore_errors=True)
     stats["outcomes"] = sorted(stats["outcomes"])
@@ -1163,9 +1197,10 @@ def run(ctx):
     shards.append(([f for f in funcs if f["probe"]], shadow, rt, "probe", opt))
     res = ctx.pmap(_worker, shards)
 
-    tot = {"functions": 0, "evaluations": 0, "nontrivial": 0, "undefined_skipped": 0, "compile_rejected": 0, "not_run_after_faults_or_timeouts": 0, "not_run_after_crash": 0, "isolated_reruns": 0, "suspected_timeouts_not_confirmed": 0, "signals": 0,
+    tot = {"functions": 0, "evaluations": 0, "nontrivial": 0, "undefined_skipped": 0, "compile_rejected": 0, "not_run_after_faults_or_timeouts": 0, "not_run_after_crash": 0, "isolated_reruns": 0, "suspected_timeouts_not_confirmed": 0, "functions_rerun_isolated": 0,
+             "faults_not_reproduced_in_isolation": 0, "signals": 0,
            "exits": 0, "stdout_cases": 0, "not_run_after_faults_or_timeouts": 0, "not_run_after_crash": 0, "isolated_reruns": 0,
-           "suspected_timeouts_not_confirmed": 0}
+           "suspected_timeouts_not_confirmed": 0, "functions_rerun_isolated": 0, "faults_not_reproduced_in_isolation": 0}
     per_op = {}
     not_acc = {}
     raises = {}
